@@ -169,6 +169,13 @@ pub fn run() -> i32 {
             ("getrange_unknown_sample", vec!["getrange", &arch, "-s", "nosuch", "-c", &ctg0, "--start", "0", "--end", "5"]),
             ("ctglen_unknown_contig", vec!["ctglen", &arch, "-s", n0, "-c", "nosuch"]),
             ("ctglen_unknown_sample", vec!["ctglen", &arch, "-s", "nosuch", "-c", &ctg0]),
+            // an output that cannot be written (device full)
+            ("getset_output_device_full", vec!["getset", &arch, n0, "-o", "/dev/full"]),
+            ("getset_two_samples_output_device_full", vec!["getset", &arch, n1, n0, "-o", "/dev/full"]),
+            ("getset_prefix_output_device_full", vec!["getset", &arch, "-p", &n0[..1], "-o", "/dev/full"]),
+            ("listset_output_device_full", vec!["listset", &arch, "-o", "/dev/full"]),
+            ("listctg_output_device_full", vec!["listctg", &arch, n0, "-o", "/dev/full"]),
+            ("getrange_output_device_full", vec!["getrange", &arch, "-s", n0, "-c", &ctg0, "--start", "0", "--end", "50", "-o", "/dev/full"]),
         ];
         for (what, a) in &fails {
             let sub = adir.join(format!("f-{what}"));
@@ -210,6 +217,37 @@ pub fn run() -> i32 {
     }
     let pan: Vec<(String, Vec<u8>)> = (0..3).flat_map(|i| { let mut c = base.clone(); c[50 + i * 40] ^= 2; vec![(format!("smp{i}#0#chr1"), c.clone()), (format!("smp{i}#0#chr2"), c[..200].to_vec())] }).collect();
     cli::write_fasta(&cdir.join("pan.fa"), &pan, 70);
+    // file names with dots inside the stem (accession.version, sample.haplotype): each input is its own sample
+    {
+        let ddir = dir.join("dotted");
+        std::fs::create_dir_all(&ddir).unwrap();
+        let names = ["ref.fa", "HG002.1.fa", "HG002.2.fa", "GCA_000146045.2.fasta", "a.b.c.fa.gz"];
+        for (i, n) in names.iter().enumerate() {
+            let mut c = base.clone();
+            c[33 + 19 * i] ^= 1;
+            let p = ddir.join(n);
+            crate::cli::write_fasta(&p, &[("chr1".to_string(), c)], 70);
+            if n.ends_with(".gz") {
+                use std::io::Write;
+                let raw = std::fs::read(&p).unwrap();
+                let mut e = flate2::write::GzEncoder::new(Vec::new(), flate2::Compression::new(3));
+                e.write_all(&raw).unwrap();
+                std::fs::write(&p, e.finish().unwrap()).unwrap();
+            }
+        }
+        let mut a: Vec<&str> = vec!["create", "-o", "d.agc", "-k", "11", "-s", "50", "-m", "15", "-t", "2", "-v", "0"];
+        a.extend(names.iter());
+        let o = cli::run(&ragc, &a, &ddir, &[("RAGC_VERIF_ZSTD_CAP", "3")], 120, None);
+        evals.fetch_add(1, Ordering::Relaxed);
+        if o.ok() {
+            let l = cli::run(&ragc, &["listset", "d.agc"], &ddir, &[], 60, None);
+            let listed: Vec<String> = String::from_utf8_lossy(&l.stdout).lines().map(|s| s.to_string()).collect();
+            let distinct: std::collections::HashSet<&String> = listed.iter().collect();
+            if listed.len() != names.len() || distinct.len() != names.len() {
+                rep.violation("C17:create_exit_0_incomplete_archive:dotted_file_names", "create exited 0 but the archive does not list one sample per input file", json!({"inputs": names, "listed": listed}));
+            }
+        }
+    }
     let mut combos: Vec<(Vec<&str>, &str, &str, bool)> = Vec::new();
     for mask in 0..8u32 {
         for t in ["1", "4"] {
